@@ -494,3 +494,146 @@ PROPS["C17"] = {
 # the shipped configuration (NDEBUG): programs that arm timers between stop() and the return of run() are only generated here
 PROPS["C02"]["jobs"].append({"name": "random-ndebug", "engine": "timers", "mode": "random", "variant": "asan-ndebug", "args": {"n": T(15000, 500000), "maxops": T(60, 80)}})
 PROPS["C03"]["jobs"].append({"name": "random-ndebug", "engine": "timers", "mode": "random", "variant": "asan-ndebug", "args": {"n": T(15000, 500000), "maxops": T(60, 80)}})
+
+# ---- C14 / C11: engines written by a sub-agent (agent_out/resreg), reviewed and integrated here
+PROPS["C14"] = {
+    "level": "exploration",
+    "claim": {
+        "technique": "runtime monitoring: the statement's recurrence evaluated on observed request/completion times of the real resolver "
+                     "(ASan+UBSan build) plus the configuration's call log; bounded-exhaustive + random programs",
+        "text": "Every generated program of async_resolve/cancel()/sleep steps (issued at top level, from resolve handlers and from harness-timer "
+                "handlers, on tcp and udp resolvers) is run on the real library; at every completion the handler count, error, endpoint list "
+                "(order, numeric port), request order among host names and the completion time E_i = max(requested_i, completion_{i-1}) + latency_i "
+                "(exact; [E_i, E_i+1us] only if a literal was pending on that resolver meanwhile) are checked, literals must complete within 1 us "
+                "without a hostname_lookup call, and after cancel() every pending lookup must complete exactly once with operation_aborted. "
+                "All programs of <= N operations over a 12-letter alphabet are enumerated, longer ones sampled; holds on what was explored.",
+        "note": "Trusts vf::Net (a pure function of its name table, so 'what the configuration returned' is known) and the tracked-handler "
+                "bookkeeping in harness/e_resolver.cpp. Resolvers are neither moved nor destroyed with lookups pending (C04/C12).",
+        "ref": "DESIGN.md 3/C14",
+    },
+    "rule": "programs = sequences of async_resolve(host name | IPv4/IPv6 literal, numeric service), cancel() and sleep(d ms) (= a harness timer whose "
+            "handler continues the program later) on 1-3 tcp/udp resolvers; names have latencies from {0, 1 ms, 10 ms, 100 ms, 1 h} (random mode "
+            "also 0-250 ms), results with 0-4 v4/v6 addresses, errors with and without addresses, unknown names. Job 'exh' enumerates every program "
+            "of <= N operations over {5 names, 2 literals, cancel, sleep 1/10/100 ms, end-of-block} on one resolver (tcp and udp) completely, job "
+            "'random' draws programs of up to 30 operations. Non-trivial = >= 3 lookups pending at once, a host name queued behind a pending one, a "
+            "cancel() that hit pending lookups, a literal overlapping a host name, or lookups issued from handlers; distinct = distinct "
+            "operation+completion traces.",
+    "jobs": [
+        {"name": "exh", "engine": "resolver", "mode": "exh", "args": {"ops": T(4, 5)}},
+        {"name": "random", "engine": "resolver", "mode": "random", "args": {"n": T(150000, 3000000), "maxops": T(30, 30)}},
+    ],
+    "require": {
+        "quick": {"programs_with_3_or_more_pending": 50000, "programs_with_cancel_hitting_pending": 40000,
+                  "programs_with_literal_delaying_hostname": 30000, "hostname_lookups_queued_behind_pending_one": 200000,
+                  "lookups_from_resolve_handlers": 300000, "lookups_from_timer_handlers": 80000,
+                  "aborted_completions_verified": 100000, "literal_lookups_verified": 200000, "hostname_completion_times_exact": 400000},
+        "thorough": {"programs_with_3_or_more_pending": 2000000, "programs_with_cancel_hitting_pending": 1000000,
+                     "hostname_completion_times_exact": 10000000, "aborted_completions_verified": 3000000},
+    },
+    "assumptions": ["numeric service strings only; canonical IPv4/IPv6 literal spellings only",
+                    "request instants are whole milliseconds except where the program continues inside a completion handler (t + 1 us after a literal)",
+                    "the resolver object outlives its lookups; it is never moved",
+                    "one io_context (node) per program"],
+}
+
+PROPS["C11"] = {
+    "level": "exploration",
+    "claim": {
+        "technique": "runtime monitoring: reference registry {proto -> endpoint -> socket} + per-socket {open, family, binding, listening} stepped "
+                     "with every operation of a generated history on the real library (ASan+UBSan build); connectivity probes from a separate node; "
+                     "bounded-exhaustive + random histories",
+        "text": "After every step of a history of open/bind/listen/connect/send_to/close/re-open/move/destroy operations the error code (must be one "
+                "of the applicable errors; no precedence demanded), is_open() and local_endpoint() of every socket are compared with the reference; "
+                "port 0 must yield a port >= 1024 that the reference says is free. Every few steps throw-away clients connect / send a datagram to "
+                "every endpoint the reference knows (answered by exactly the holder; TCP only by a listening acceptor) and to endpoints it believes "
+                "free (refused / reach nobody), fresh sockets must be able to bind every sampled free endpoint and must get address_in_use on every "
+                "held one, and every accepted connection / delivered datagram must have been addressed to what the receiving socket holds now. "
+                "Holds on the histories explored.",
+        "note": "Trusts the reference model in harness/e_registry.cpp. Binding a bound open socket twice is excluded as misuse; objects are moved only "
+                "while no operation is outstanding on them; move assignment is not used (declared, not defined).",
+        "ref": "DESIGN.md 3/C11",
+    },
+    "rule": "histories over 2-5 (+ accepted) TCP sockets, acceptors and UDP sockets on 1-2 nodes under test (address sets {v4}, {v4,v6}, {v6,v4,v4,v6}, "
+            "{v4,v4}, {v6}, {v4,v4,v6}) plus a probe node: open(v4|v6) incl. re-open, bind(explicit | wildcard v4/v6 | port 0 | privileged | foreign | "
+            "wrong family | an endpoint somebody holds or just gave up | a port the ephemeral counter is about to reach), listen, async_connect "
+            "(implicit open/bind; judged at once, left in flight, or delivered but not accepted), send_to (implicit bind), close()/close(ec), "
+            "move-construct (source kept or destroyed), destroy, re-create, feeding an acceptor (the accepted socket joins the history), leaving a "
+            "datagram unread in a socket; one history in ten starts with a connection attempt waiting at an acceptor that then gives the endpoint up "
+            "and binds another. Jobs 'exh-*' enumerate every history of exactly N steps over 7 operations x {acceptor, tcp socket, udp socket(, udp "
+            "socket)} on a dual-stack node with probes at the end; 'random' draws histories of 4-64 steps with probes every 3-8 steps; 'wrap' "
+            "(thorough) performs 64-68 k port-0 binds with ports held around 2000 and 65530 to cross the 65534 -> 2000 wrap. Non-trivial = a binding was "
+            "released or a bind was refused with address_in_use; distinct = distinct step traces.",
+    "jobs": [
+        {"name": "exh-4slots", "engine": "registry", "mode": "exh", "args": {"steps": T(3, 4), "slots": 4}},
+        {"name": "exh-3slots", "engine": "registry", "mode": "exh", "args": {"steps": T(4, 5), "slots": 3}},
+        {"name": "random", "engine": "registry", "mode": "random", "args": {"n": T(40000, 400000)}},
+        {"name": "wrap", "engine": "registry", "mode": "wrap", "tiers": ("thorough",), "args": {"n": 12}},
+    ],
+    "require": {
+        "quick": {"binds_rejected_address_in_use": 4000, "rebinds_of_released_endpoint": 5000, "moves_of_bound_socket": 20000,
+                  "closes_of_bound_socket": 25000, "destroys_of_bound_socket": 15000, "reopens_of_bound_socket": 15000,
+                  "closes_of_accepted_socket": 3000, "accepted_sockets_entering_history": 1200, "same_endpoint_held_in_tcp_and_udp": 6000,
+                  "ephemeral_binds_stepping_over_held_port": 5000, "binds_with_several_applicable_errors": 5000,
+                  "tcp_probes_answered_by_holder": 8000, "tcp_probes_refused": 400000, "udp_probes_delivered_to_holder": 50000,
+                  "held_endpoints_refused_to_fresh_socket": 150000, "free_endpoints_bound_by_sweep": 800000,
+                  "histories_with_attempt_waiting_at_rebound_acceptor": 2000, "waiting_datagrams_read_from_holder": 1500},
+        "thorough": {"binds_rejected_address_in_use": 50000, "rebinds_of_released_endpoint": 80000, "moves_of_bound_socket": 300000,
+                     "tcp_probes_answered_by_holder": 80000, "wrap_cases_that_wrapped": 10, "ephemeral_binds": 1000000},
+    },
+    "assumptions": ["routes contain one queue (1 ms): with hop-less routes the library delivers the SYN+ACK inside async_connect (asserts)",
+                    "binding an already bound, still open socket a second time is not generated (API misuse)",
+                    "objects are moved only while no operation is outstanding on them; move assignment is never used",
+                    "an open, unbound socket never connects to a target of the other address family; unbound v6 UDP sockets never send"],
+    "timeout": {"quick": 900, "thorough": 3600},
+}
+
+PROPS["C11"] = {
+    "level": "exploration",
+    "claim": {
+        "technique": "runtime monitoring: reference registry {proto -> endpoint -> socket} + per-socket {open, family, binding, listening} stepped "
+                     "with every operation of a generated history on the real library (ASan+UBSan build); connectivity probes from a separate node; "
+                     "bounded-exhaustive + random histories",
+        "text": "After every step of a history of open/bind/listen/connect/send_to/close/re-open/move/destroy operations the error code (must be one "
+                "of the applicable errors; no precedence demanded), is_open() and local_endpoint() of every socket are compared with the reference; "
+                "port 0 must yield a port >= 1024 that the reference says is free. Every few steps throw-away clients connect / send a datagram to "
+                "every endpoint the reference knows (answered by exactly the holder; TCP only by a listening acceptor) and to endpoints it believes "
+                "free (refused / reach nobody), fresh sockets must be able to bind every sampled free endpoint and must get address_in_use on every "
+                "held one, and every accepted connection / delivered datagram must have been addressed to what the receiving socket holds now. "
+                "Holds on the histories explored.",
+        "note": "Trusts the reference model in harness/e_registry.cpp. Binding a bound open socket twice is excluded as misuse; objects are moved only "
+                "while no operation is outstanding on them; move assignment is not used (declared, not defined).",
+        "ref": "DESIGN.md 3/C11",
+    },
+    "rule": "histories over 2-5 (+ accepted) TCP sockets, acceptors and UDP sockets on 1-2 nodes under test (address sets {v4}, {v4,v6}, {v6,v4,v4,v6}, "
+            "{v4,v4}, {v6}, {v4,v4,v6}) plus a probe node: open(v4|v6) incl. re-open, bind(explicit | wildcard v4/v6 | port 0 | privileged | foreign | "
+            "wrong family | an endpoint somebody holds or just gave up | a port the ephemeral counter is about to reach), listen, async_connect "
+            "(implicit open/bind; judged at once, left in flight, or delivered but not accepted), send_to (implicit bind), close()/close(ec), "
+            "move-construct (source kept or destroyed), destroy, re-create, feeding an acceptor (the accepted socket joins the history), leaving a "
+            "datagram unread in a socket; one history in ten starts with a connection attempt waiting at an acceptor that then gives the endpoint up "
+            "and binds another. Jobs 'exh-*' enumerate every history of exactly N steps over 7 operations x {acceptor, tcp socket, udp socket(, udp "
+            "socket)} on a dual-stack node with probes at the end; 'random' draws histories of 4-64 steps with probes every 3-8 steps; 'wrap' "
+            "(thorough) performs 64-68 k port-0 binds with ports held around 2000 and 65530 to cross the 65534 -> 2000 wrap. Non-trivial = a binding was "
+            "released or a bind was refused with address_in_use; distinct = distinct step traces.",
+    "jobs": [
+        {"name": "exh-4slots", "engine": "registry", "mode": "exh", "args": {"steps": T(3, 4), "slots": 4}},
+        {"name": "exh-3slots", "engine": "registry", "mode": "exh", "args": {"steps": T(4, 5), "slots": 3}},
+        {"name": "random", "engine": "registry", "mode": "random", "args": {"n": T(40000, 400000)}},
+        {"name": "wrap", "engine": "registry", "mode": "wrap", "tiers": ("thorough",), "args": {"n": 12}},
+    ],
+    "require": {
+        "quick": {"binds_rejected_address_in_use": 4000, "rebinds_of_released_endpoint": 5000, "moves_of_bound_socket": 20000,
+                  "closes_of_bound_socket": 25000, "destroys_of_bound_socket": 15000, "reopens_of_bound_socket": 15000,
+                  "closes_of_accepted_socket": 3000, "accepted_sockets_entering_history": 1200, "same_endpoint_held_in_tcp_and_udp": 6000,
+                  "ephemeral_binds_stepping_over_held_port": 5000, "binds_with_several_applicable_errors": 5000,
+                  "tcp_probes_answered_by_holder": 8000, "tcp_probes_refused": 400000, "udp_probes_delivered_to_holder": 50000,
+                  "held_endpoints_refused_to_fresh_socket": 150000, "free_endpoints_bound_by_sweep": 800000,
+                  "histories_with_attempt_waiting_at_rebound_acceptor": 2000, "waiting_datagrams_read_from_holder": 1500},
+        "thorough": {"binds_rejected_address_in_use": 50000, "rebinds_of_released_endpoint": 80000, "moves_of_bound_socket": 300000,
+                     "tcp_probes_answered_by_holder": 80000, "wrap_cases_that_wrapped": 10, "ephemeral_binds": 1000000},
+    },
+    "assumptions": ["routes contain one queue (1 ms): with hop-less routes the library delivers the SYN+ACK inside async_connect (asserts)",
+                    "binding an already bound, still open socket a second time is not generated (API misuse)",
+                    "objects are moved only while no operation is outstanding on them; move assignment is never used",
+                    "an open, unbound socket never connects to a target of the other address family; unbound v6 UDP sockets never send"],
+    "timeout": {"quick": 900, "thorough": 3600},
+}
